@@ -219,4 +219,77 @@ def evaluate_deltas(expr, target_idx: str = None):"""),
         return i.space == j.space and i.spin == j.spin""",
          new="""        first, second = self.idx
         return not (first.space != second.space or first.spin != second.spin)"""),
+    # ---- targets in the recursion (seed C09-4): determined once and passed down vs re-determined on the substituted term
+    dict(id="c09-recursion-redetermines-targets", prop="C09", file=F, expect="R09c", edits=[
+        ("""            # extract the target indices and use them in next recursion
+            # so they only need to be determined once
+            target_idx = [s for s, n in indices.items() if not n]""",
+         """            # extract the target indices
+            targets = [s for s, n in indices.items() if not n]"""),
+        ("            target_idx = get_symbols(target_idx)\n", "            targets = get_symbols(target_idx)\n"),
+        ("            if killable not in target_idx:\n", "            if killable not in targets:\n"),
+        ("            elif preferred not in target_idx \\\n", "            elif preferred not in targets \\\n"),
+    ]),
+    dict(id="c09-ok-targets-local-passed-down", prop="C09", file=F, expect=None, edits=[
+        ("""            # extract the target indices and use them in next recursion
+            # so they only need to be determined once
+            target_idx = [s for s, n in indices.items() if not n]""",
+         """            # extract the target indices
+            targets = [s for s, n in indices.items() if not n]"""),
+        ("            target_idx = get_symbols(target_idx)\n", "            targets = get_symbols(target_idx)\n"),
+        ("            if killable not in target_idx:\n", "            if killable not in targets:\n"),
+        ("            elif preferred not in target_idx \\\n", "            elif preferred not in targets \\\n"),
+        ("""                expr = expr.subs(killable, preferred)
+                if len(deltas) > 1:
+                    return evaluate_deltas(expr, target_idx)""",
+         """                expr = expr.subs(killable, preferred)
+                if len(deltas) > 1:
+                    return evaluate_deltas(expr, targets)"""),
+        ("""                expr = expr.subs(preferred, killable)
+                if len(deltas) > 1:
+                    return evaluate_deltas(expr, target_idx)""",
+         """                expr = expr.subs(preferred, killable)
+                if len(deltas) > 1:
+                    return evaluate_deltas(expr, target_idx=tuple(targets))"""),
+    ]),
+    # explicit targets are re-parsed from the untouched argument in the recursion (get_symbols is deterministic: equal
+    # targets); convention targets are determined once and passed down
+    dict(id="c09-ok-explicit-targets-reparsed", prop="C09", file=F, expect=None, edits=[
+        ("""            target_idx = [s for s, n in indices.items() if not n]""",
+         """            targets = [s for s, n in indices.items() if not n]
+            target_idx = targets"""),
+        ("            target_idx = get_symbols(target_idx)\n", "            targets = get_symbols(target_idx)\n"),
+        ("            if killable not in target_idx:\n", "            if killable not in targets:\n"),
+        ("            elif preferred not in target_idx \\\n", "            elif preferred not in targets \\\n"),
+    ]),
+    # the restart goes through a local closure that captured the targets determined once
+    dict(id="c09-ok-restart-closure", prop="C09", file=F, expect=None, edits=[
+        ("        for d in deltas:\n            # determine the killable and preferred index",
+         "        def restart(new_expr, known=target_idx):\n            return evaluate_deltas(new_expr, target_idx=known)\n\n"
+         "        for d in deltas:\n            # determine the killable and preferred index"),
+        ("""                expr = expr.subs(killable, preferred)
+                if len(deltas) > 1:
+                    return evaluate_deltas(expr, target_idx)""",
+         """                expr = expr.subs(killable, preferred)
+                if len(deltas) > 1:
+                    return restart(expr)"""),
+        ("""                expr = expr.subs(preferred, killable)
+                if len(deltas) > 1:
+                    return evaluate_deltas(expr, target_idx)""",
+         """                expr = expr.subs(preferred, killable)
+                if len(deltas) > 1:
+                    return restart(expr)"""),
+    ]),
+    # the same closure built before the targets are determined captures the original argument: targets re-determined
+    dict(id="c09-restart-closure-captures-argument", prop="C09", file=F, expect="R09c", edits=[
+        ("    elif isinstance(expr, Mul):\n        if target_idx is None:",
+         "    elif isinstance(expr, Mul):\n        def restart(new_expr, known=target_idx):\n"
+         "            return evaluate_deltas(new_expr, target_idx=known)\n\n        if target_idx is None:"),
+        ("""                expr = expr.subs(killable, preferred)
+                if len(deltas) > 1:
+                    return evaluate_deltas(expr, target_idx)""",
+         """                expr = expr.subs(killable, preferred)
+                if len(deltas) > 1:
+                    return restart(expr)"""),
+    ]),
 ]
